@@ -8,6 +8,8 @@ CONSTANTS
   MaxEnv = 2
   ForeignAt = "ref"
   RenderFails = FALSE
+  CacheMisses = TRUE
+  VerBumps = FALSE
   FailKinds = {"fnerror2", "fatal1"}
 VIEW view
 ACTION_CONSTRAINT Emit
